@@ -42,7 +42,7 @@ COMPONENTS = {
     "stub": ["file system (SimFS)", "raw byte stream (SimRaw: short reads, EOF)",
              "the consumer (seeded walk instead of the parser)"],
 }
-PROBES = ["resolved_include_in_stream", "tab_indent", "trailing_whitespace", "label_leading_zeros", "restore_across_semi_split", "restore_comment_inside_continuation",
+PROBES = ["empty_statement_between_semicolons", "resolved_include_in_stream", "tab_indent", "trailing_whitespace", "label_leading_zeros", "restore_across_semi_split", "restore_comment_inside_continuation",
           "literal_continued_over_3_lines", "fixed_comment_between_continuations",
           "short_read_inside_line", "cont_col1_no_amp", "eof_inside_statement",
           "walk_restored_all", "cut_word", "cut_lit"]
@@ -68,7 +68,7 @@ def generate(run_seed, cfg):
                 "cont_comment": sw.choice([0, 0.2, 0.5]),
                 "literal_cut": sw.random() < 0.8, "token_cut": sw.random() < 0.6,
                 "tabs": sw.choice([0, 0, 0.2]), "trailing_ws": sw.choice([0, 0, 0.3]),
-                "label_zeros": sw.choice([0, 0.5])}
+                "label_zeros": sw.choice([0, 0.5]), "empty_stmt": sw.choice([0, 0, 0.4])}
         rend = layout.render_free(stmts, lay, opts)
     else:
         opts = {"wrap": sw.choice([72, 72, 60, 40]), "comments": sw.choice([0, 0.1, 0.3]),
@@ -260,6 +260,7 @@ def execute(case):
                     "state_keys": [], "discarded": "detected-form-differs-from-intended"}
         for feat, cnt in case["layout_features"].items():
             if feat in ("cont_col1_no_amp", "cut_word", "cut_lit", "tab_indent",
+                        "empty_statement_between_semicolons",
                         "trailing_whitespace", "label_leading_zeros"):
                 probe(feat, cnt)
             if feat == "literal_over_3_lines" or feat == "long_stmt_with_literal":
